@@ -355,6 +355,10 @@ def get_defined_names(root: ast.Module) -> Set[str]:
         | {node.name for node in core.walk(root, (ast.FunctionDef, ast.AsyncFunctionDef))}
         | {node.name for node in core.walk(root, ast.ClassDef)}
         | {node.arg for node in core.walk(root, ast.arg)}
+        # The names bound by "except .. as name" and by match patterns are plain strings
+        | {node.name for node in core.walk(root, ast.ExceptHandler(name=str))}
+        | {node.name for node in core.walk(root, (ast.MatchAs(name=str), ast.MatchStar(name=str)))}
+        | {node.rest for node in core.walk(root, ast.MatchMapping(rest=str))}
     )
 
 
